@@ -204,6 +204,11 @@ impl RecvWindow {
         // Check received packet integrity, as per the Matter Core spec
         self.check_data_integrity(hdr, payload, mtu)?;
 
+        if self.level == 0 {
+            warn!("RX data integrity failure: the receive window is exhausted (or not negotiated yet). Is the other party overflowing our recv window?");
+            Err(ErrorCode::InvalidData)?;
+        }
+
         if let Some(msg_len) = hdr.get_msg_len() {
             if msg_len <= mtu && !hdr.is_final() {
                 warn!("RX data integrity failure: An SDU that fits in a single BTP segment must be final");
